@@ -25,10 +25,14 @@ type c05Case struct {
 	Ask    int   // time slot at which the results are requested
 	Offset int   // start position
 	NoFile bool  // the producer never creates the stdout file (unit finishes without output)
+	SlowMs int   // every write of the control service to the client takes this long (a client that is slow to read)
 	Early  int   // the final record (announcing the full size) is written before the last Early writes: the record is ahead of the stored output, as with the local copy of a remote unit
 }
 
 func (c c05Case) String() string {
+	if c.SlowMs > 0 {
+		return fmt.Sprintf("chunks=%v final=%d slots=%v ask=%d offset=%d nofile=%v client-takes-%dms-per-write", c.Chunks, c.Final, c.Slots, c.Ask, c.Offset, c.NoFile, c.SlowMs)
+	}
 	if c.Early > 0 {
 		return fmt.Sprintf("chunks=%v final=%d slots=%v ask=%d offset=%d nofile=%v final-record-before-last-%d-writes", c.Chunks, c.Final, c.Slots, c.Ask, c.Offset, c.NoFile, c.Early)
 	}
@@ -68,6 +72,7 @@ func runC05Case(t *testing.T, c c05Case) CaseOut {
 		e := newCtlEnv("n1", nil)
 		defer e.close()
 		e.addrNet = "unix"
+		e.slowWrite = time.Duration(c.SlowMs) * time.Millisecond
 		e.w.RegisterWorker("manual", func(_ workceptor.BaseWorkUnitForWorkUnit, w *workceptor.Workceptor, id, wt string) workceptor.WorkUnit {
 			u := &manualUnit{}
 			u.BaseWorkUnit.Init(w, id, wt, workceptor.FileSystem{}, stubWatcher{})
@@ -296,6 +301,18 @@ func runC05(w *W) {
 			}
 		}
 	}
+	// a client that is slow to take what it is sent, while the unit is still writing
+	for _, chunks := range [][]int{{5, 7}, {3, 4, 5}, {9, 2, 6}} {
+		n := 2 + len(chunks)
+		for _, slots := range [][]int{seqSlots(n), evenSlots(n, 2), evenSlots(n, 3)} {
+			for _, slow := range []int{300, 400, 700} {
+				for _, off := range []int{0, 2} {
+					c := c05Case{Chunks: chunks, Final: 2, Slots: slots, Ask: 0, Offset: off, SlowMs: slow}
+					w.Case(c.String(), func() CaseOut { return runC05Case(w.T, c) })
+				}
+			}
+		}
+	}
 	// the final record is ahead of the stored output (status mirrored before the output, as for remote units)
 	for _, final := range []int{2, 3, 4} {
 		for _, early := range []int{1, 2} {
@@ -335,6 +352,14 @@ func runC05(w *W) {
 	}
 }
 
+func evenSlots(n, step int) []int {
+	s := make([]int, n)
+	for i := range s {
+		s[i] = i * step
+	}
+	return s
+}
+
 func seqSlots(n int) []int {
 	s := make([]int, n)
 	for i := range s {
@@ -348,7 +373,7 @@ func init() {
 		ID:        "C05",
 		Level:     "model_checking",
 		Technique: "exhaustive enumeration of the timing of a scripted producer's steps (real STDoutWriter and status rewrites) against the real `work results` reader in a synctest bubble: every monotone placement of the steps and of the request on a 125 ms grid (half the reader's poll period), every start offset; remote units: two real daemons joined through a harness-owned TCP relay, the link cut (or the remote daemon killed and restarted) at every position of a time grid while `work results` is asked early or late on the submitting node",
-		Rule: "outputs {none (no file), empty file, one chunk, two chunks (thorough: three)} x final state {Succeeded, Failed, Canceled} x every monotone assignment of the producer's steps (create file, write i, final status) to slots 0..4 (thorough 0..5) x request slot 0..5 x start offset 0..size (quick: 0, size/2, size and a third of the others); outputs crossing the 64 KiB read buffer with boundary offsets; the final record (announcing the full size) written before the last 1-2 writes, for every final state (the record is ahead of the stored output, as with the local copy of a remote unit); remote: unit {cat, chatty (4 lines, 0.3 s apart)} submitted by n1 to n2, fault {none, link cut for 0.7 s / 3.5 s, n2 killed and restarted after 0.8 s} at 0..3000 ms step 600 (thorough 300) after the acknowledgement x request at 0.1 s / 8 s x offset {0, 7}, with a second request from 0 afterwards; unit ticker (8 lines, 0.5 s apart) with n2 restarted at 600..5400 ms and the link cut for 35 s (longer than the stream's idle limit) so that the mirror must connect again with part of the output stored. " +
+		Rule: "outputs {none (no file), empty file, one chunk, two chunks (thorough: three)} x final state {Succeeded, Failed, Canceled} x every monotone assignment of the producer's steps (create file, write i, final status) to slots 0..4 (thorough 0..5) x request slot 0..5 x start offset 0..size (quick: 0, size/2, size and a third of the others); outputs crossing the 64 KiB read buffer with boundary offsets; a client that takes 300/400/700 ms per write while the unit is still producing; the final record (announcing the full size) written before the last 1-2 writes, for every final state (the record is ahead of the stored output, as with the local copy of a remote unit); remote: unit {cat, chatty (4 lines, 0.3 s apart)} submitted by n1 to n2, fault {none, link cut for 0.7 s / 3.5 s, n2 killed and restarted after 0.8 s} at 0..3000 ms step 600 (thorough 300) after the acknowledgement x request at 0.1 s / 8 s x offset {0, 7}, with a second request from 0 afterwards; unit ticker (8 lines, 0.5 s apart) with n2 restarted at 600..5400 ms and the link cut for 35 s (longer than the stream's idle limit) so that the mirror must connect again with part of the output stored. " +
 			"Every case is a distinct (output, timing, offset); all non-trivial. Oracle: bytes received = output[offset:], the stream ends, not before the final state was recorded and within 10 virtual seconds after it.",
 		Assumptions: []string{"remote cases run in real time (one process per case): the grid positions are approximate, no oracle depends on an interval shorter than 60 s", "virtual time: the reader's 250/500 ms polls and the producer's steps interleave on a 125 ms grid; finer phase differences are not explored", "Canceled counts as finished (C13's stage order)"},
 		Run:         runC05,
